@@ -1196,22 +1196,25 @@ impl<'a> Searcher<'a> {
                     return Variant::from_string(&parent.to_string_lossy().to_string());
                 }
             }
-            Field::AbsDir => {
-                let file_path = match file_info {
-                    Some(file_info) => file_info.name.clone(),
-                    _ => entry.path().to_string_lossy().to_string(),
-                };
-                let pb = PathBuf::from(file_path);
-                if let Some(parent) = pb.parent() {
-                    if file_info.is_some() {
+            Field::AbsDir => match file_info {
+                Some(file_info) => {
+                    if let Some(parent) = PathBuf::from(&file_info.name).parent() {
                         return Variant::from_string(&parent.to_string_lossy().to_string());
                     }
-
-                    if let Ok(path) = crate::util::canonical_path(&parent.to_path_buf()) {
+                }
+                // the directory of the entry itself is resolved (not what its display text spells:
+                // a name that is no valid Unicode exists under its own bytes only)
+                None => {
+                    let path = entry.path();
+                    let parent = match path.parent() {
+                        Some(parent) if !parent.as_os_str().is_empty() => parent.to_path_buf(),
+                        _ => PathBuf::from("."),
+                    };
+                    if let Ok(path) = crate::util::canonical_path(&parent) {
                         return Variant::from_string(&path);
                     }
                 }
-            }
+            },
             Field::Size => match file_info {
                 Some(file_info) => {
                     return Variant::from_int(file_info.size as i64);
